@@ -10,7 +10,7 @@ Exploration (model-guided): strings built along the token alphabets of the speci
 
 import json
 
-from .. import core
+from .. import absfam, core
 from ..c02gen import INVALID_SETTINGS, gen_formats, gen_string, settings_pool
 
 LEVEL = "exploration"
@@ -63,7 +63,7 @@ def run(ctx):
             fm = gen_formats(rng)
             if fm:
                 kw["date_formats"] = fm
-            cases.append({"s": s, "kw": kw, "settings": st, "api": rng.choice(["ddp", "ddp", "parse"]), "probe": False, "valid": True})
+            cases.append({"s": s, "kw": kw, "settings": st, "api": rng.choice(["ddp", "ddp", "parse"]), "probe": True, "valid": True})
         directed = [
             ("9999-12-31 23:59 -0500", {}, {"TIMEZONE": "UTC"}), ("0001-01-01 00:00 +1400", {}, {"TIMEZONE": "UTC"}),
             ("11\u66424\u5206", {}, {"RELATIVE_BASE": [1, 1, 1, 0, 0, 0, 0], "PREFER_DATES_FROM": "past"}),
@@ -95,13 +95,22 @@ def run(ctx):
     results = core.run_cases(ctx, "harness.lib", "call_parse", cases, chunk=200, contiguous=True)
     records = []
     for i, (c, r) in enumerate(zip(cases, results)):
-        records.append({"tid": i, "valid": c["valid"], "api": c["api"], "exc": r["exc"], "mro": r["mro"], "hasDate": bool(r["out"]),
+        records.append({"kind": "c02", "tid": i, "valid": c["valid"], "api": c["api"], "exc": r["exc"], "mro": r["mro"], "hasDate": bool(r["out"]),
                         "period": r["period"], "locale": r["locale"]})
+        # refinement-on-trace of every run of the absolute / no-spaces parser these calls reach (at most a few per call)
+        records.extend((absfam.abs_records(i, r) + absfam.nsp_records(i, r))[:4])
     tuples, gen = core.validate_traces(ctx, "T_C02", "SPECIFICATION TSpec\nPOSTCONDITION Consumed\nCHECK_DEADLOCK FALSE\n", records)
     seen = {}
+    ndrift = 0
     for t in tuples["REJECT"]:
         _, tid, kind, verdict, exc = t[:5]
         c, r = cases[tid], results[tid]
+        if kind == "abs":
+            ndrift += 1
+            ctx.note_drift("AbsParser" if verdict == "absparser" else "NoSpaces",
+                           {"string": c["s"], "kw": c["kw"], "settings": c["settings"], "model": exc,
+                            "observed": [[e.get("ds"), e.get("out"), e.get("period")] for e in r.get("probe", [])][:3]})
+            continue
         key = (verdict, r["exc"], (r.get("msg") or "")[:30])
         seen[key] = seen.get(key, 0) + 1
         if seen[key] > 3:
@@ -115,6 +124,7 @@ def run(ctx):
         "evaluations": len(cases), "distinct_nontrivial": len({(c["s"], repr(c["kw"]), repr(c["settings"])) for c, r in zip(cases, results) if r["out"]}),
         "rule": "case = (string <= 100 chars, settings from the pool, languages / locales / region, date_formats); non-trivial = distinct call returning a datetime",
         "exhaustive": False, "states": mc.distinct, "transitions": mc.generated, "traces_validated_against_impl": len(cases),
+        "parser_runs_refined": sum(1 for x in records if x.get("kind") in ("abs", "nsp")), "parser_runs_drift": ndrift,
         "invalid_setting_cases": sum(1 for c in cases if not c["valid"]), "parsed": sum(1 for r in results if r["out"]),
         "exceptions_seen": sorted({r["exc"] for r in results if r["exc"]}),
         "pinned_exception_flow_refuted": pinned.invariant_violated,
